@@ -249,6 +249,15 @@ def top_rule(w, s, now, top):
     return mass_fraction_rule(w, [now['L', ID] for ID in IDs], [now['l', ID] for ID in IDs], IDs.index(top), [MW_of(s)[ID] for ID in IDs])
 
 
+def gt_exact(w, a, b):
+    """a > b as a case-split condition: exact float comparison natively (the toleranced w.ge/w.le are for clauses)."""
+    return w.gt(a, b) if w.symbolic else float(a) > float(b)
+
+
+def ge_exact(w, a, b):
+    return w.ge(a, b) if w.symbolic else float(a) >= float(b)
+
+
 def decide(w, cond):
     """Case split of the contract on a condition (symbolically: one branch decision, both outcomes explored if feasible)."""
     if w.symbolic:
@@ -262,7 +271,7 @@ def mass_fraction_rule(w, aL, al, k, MWs):
     ml = [a * m for a, m in zip(al, MWs)]
     ML = w_total(mL)
     Ml = w_total(ml)
-    if decide(w, w.And(w.gt(ML, 0.), w.gt(Ml, 0.))):
+    if decide(w, w.And(gt_exact(w, ML, 0.), gt_exact(w, Ml, 0.))):
         return w.ge(mL[k] / ML, ml[k] / Ml)
     return w.And()
 
@@ -277,12 +286,12 @@ def remembered_state(w, lle, L, l, sIDs, z, T):
     cs += [w.eq(a, b) for a, b in zip(lle._z_mol, z)]
     FL = w_total(L)
     Fl = w_total(l)
-    if decide(w, w.And(w.gt(FL, 0.), w.gt(Fl, 0.))):
+    if decide(w, w.And(gt_exact(w, FL, 0.), gt_exact(w, Fl, 0.))):
         cs.append(w.eq(lle._phi * (FL + Fl), FL))
         for i in range(len(sIDs)):
             x_l = l[i] / Fl
             x_L = L[i] / FL
-            if decide(w, w.ge(x_l, 1e-16)):
+            if decide(w, ge_exact(w, x_l, 1e-16)):
                 cs.append(w.eq(lle._K[i] * x_l, x_L))
     return w.And(*cs)
 
@@ -311,6 +320,8 @@ def lle_call_configs(tier):
         ('WO', 'lL', {'Water': '+0', 'Octanol': '0+'}, 'Octanol', 'box'),
         ('WO', 'lL', {'Water': '++', 'Octanol': '+0'}, 'Water', 'box'),
         ('WO', 'glL', {'Water': '++0', 'Octanol': '?0+'}, 'Octanol', 'interior'),
+        ('WO', 'lL', {'Water': '+0', 'Octanol': '0+'}, None, 'interior'),
+        ('WO', 'lL', {'Water': '+0', 'Octanol': '0+'}, 'Water', 'interior'),
         ('WOE', 'lL', {'Water': '+0', 'Octanol': '0+', 'Ethanol': '+0'}, 'Octanol', 'interior'),
         ('WOE', 'lL', {'Water': '+0', 'Octanol': '0+', 'Ethanol': '+0'}, 'Ethanol', 'interior'),
         ('EOW', 'lL', {'Water': '+0', 'Octanol': '0+', 'Ethanol': '0+'}, 'Water', 'interior'),
@@ -330,7 +341,9 @@ def lle_call_configs(tier):
         nm = f"{pkg}/{phases}/" + ','.join(f'{k[0]}{v}' for k, v in pat.items()) + f"/top={top}/solver={mode}"
         # the two-chemical configurations state the top-chemical rule directly on the outlet flows (products, no quotients),
         # the larger ones on the amounts per unit of feed (see top_rule_per_unit_feed)
-        out.append({'name': nm, 'pkg': pkg, 'phases': phases, 'pattern': pat, 'top': top, 'solver': mode, 'per_unit': pkg != 'WO'})
+        # 'state': also check the remembered state (entry state of the reuse branch); expensive for three chemicals
+        out.append({'name': nm, 'pkg': pkg, 'phases': phases, 'pattern': pat, 'top': top, 'solver': mode, 'per_unit': pkg != 'WO',
+                    'state': mode == 'interior' and (pkg == 'WO' or tier == 'thorough')})
     return out
 
 
@@ -372,8 +385,14 @@ def lle_call(w, cfg):
             a = list(molL)
             b = [z[i] - molL[i] for i in range(len(sIDs))]
             lle = s.lle
-            w.ensure('remembered state describes the returned split (K = x_L/x_l, phi = L fraction, T, z, chemicals)',
-                     w.Or(w.And(straight, remembered_state(w, lle, a, b, sIDs, z, T)), w.And(mirror, remembered_state(w, lle, b, a, sIDs, z, T))))
+            if cfg['state']:
+                # case split of the contract: which of the solver's phases ended up as 'L'
+                if decide(w, straight):
+                    w.ensure('remembered state describes the returned split (K = x_L/x_l, phi = L fraction, T, z, chemicals)',
+                             remembered_state(w, lle, a, b, sIDs, z, T))
+                else:
+                    w.ensure('remembered state describes the returned split (K = x_L/x_l, phi = L fraction, T, z, chemicals)',
+                             w.And(mirror, remembered_state(w, lle, b, a, sIDs, z, T)))
         if top is not None and top in IDs and stub.calls:
             if top in sIDs and cfg.get('per_unit', True):
                 w.ensure(f'top chemical {top}: mass fraction in L >= in l', top_rule_per_unit_feed(w, s, now, top, list(sIDs), z, molL, F))
@@ -423,7 +442,7 @@ def lle_scaling(w, cfg):
         for (ph, ID), v in la.items():
             if isinstance(v, float) and v == 0.:
                 continue
-            if decide(w, w.ne(v, 0.)):
+            if decide(w, w.ne(v, 0.) if w.symbolic else v != 0.):
                 rows_b[ph].dct[IDs.index(ID)] = k * v
         T = w.real('T', lo=285., hi=355.)
         top = cfg['top']
@@ -666,3 +685,451 @@ def lle_reuse_step(w, cfg):
         w.note(solver_calls=stub.calls, now=now)
     finally:
         env.restore()
+
+
+# --------------------------------------------------------------------------- SLE
+
+SOLUTE = 'Tetradecanol'
+NOT_NORMAL = (NoEquilibrium, InfeasibleRegion, RuntimeError, ZeroDivisionError)
+
+
+class StubGamma(eq.ActivityCoefficients):
+    """A-models: activity coefficients are arbitrary positive numbers."""
+    __slots__ = ('env',)
+    env_now = None
+
+    def __init__(self, chemicals):
+        self._chemicals = tuple(chemicals)
+        self.env = StubGamma.env_now
+
+    def __call__(self, x, T):
+        return self.env.arr([self.env.pos('gamma') for _ in self._chemicals])
+
+    f = None
+    args = ()
+
+
+class _StubCn:
+    def __init__(self, env): self.env = env
+    def l(self, T, *a): return self.env.pos('Cn.l')
+    def s(self, T, *a): return self.env.pos('Cn.s')
+    def g(self, T, *a): return self.env.pos('Cn.g')
+    def __call__(self, phase, T, *a): return self.env.pos('Cn')
+
+
+def install_sle_stubs(env, IDs):
+    """
+    A-models: solubility_eutectic, Cn.l/Cn.s, activity coefficients return arbitrary values;
+    A-iter:   flx.aitken evaluates its callback k times at arbitrary arguments and returns an arbitrary value.
+    The solubility the real SLE._solve_x hands back is recorded (instrumentation only: the wrapper calls the real method).
+    """
+    class StubFlx:
+        @staticmethod
+        def aitken(f, x, xtol=None, args=(), maxiter=50, **kw):
+            env.count('aitken')
+            r = env.leaf('aitken_x')
+            for _ in range(env.k):
+                r = env.leaf('aitken_x')
+                f(r, *args)
+            return r
+
+        def __getattr__(self, name):
+            raise AssertionError(f'unexpected flexsolve call in sle.py: {name}')
+
+    env.patch(sle_mod, 'flx', StubFlx())
+    env.patch(sle_mod, 'solubility_eutectic', lambda *a, **kw: env.leaf('x_eutectic'))
+    for ID in IDs:
+        env.patch(W.chemical(ID), '_Cn', _StubCn(env))
+    StubGamma.env_now = env
+    computed = []
+    real_solve_x = sle_mod.SLE._solve_x
+
+    def _solve_x(self, T):
+        x = real_solve_x(self, T)
+        computed.append(x)
+        return x
+
+    env.patch(sle_mod.SLE, '_solve_x', _solve_x)
+    return computed
+
+
+def sle_configs(tier):
+    fam = [
+        # pkg, phases, pattern (chars per phase), calls, gamma, k
+        ('WT', 'ls', {'Water': '+0', SOLUTE: '?+'}, ['T'], 'stub', 1),
+        ('WT', 'ls', {'Water': '+0', SOLUTE: '+?'}, ['T'], 'ideal', 0),
+        ('WT', 'ls', {'Water': '+0', SOLUTE: '+?'}, ['T', 'Tx'], 'ideal', 0),
+        ('WT', 'ls', {'Water': '00', SOLUTE: '??'}, ['T'], 'stub', 0),               # pure solute
+        ('WT', 'gls', {'Water': '?+0', SOLUTE: '0+?'}, ['T'], 'stub', 1),            # frame: the gas phase
+        ('WMT', 'ls', {'Water': '+0', 'Methanol': '+0', SOLUTE: '0+'}, ['T'], 'stub', 1),
+        ('WMT', 'ls', {'Water': '+0', 'Methanol': '?0', SOLUTE: '+0'}, ['T', 'Tx'], 'ideal', 0),
+    ]
+    if tier == 'thorough':
+        fam += [
+            ('WT', 'ls', {'Water': '+?', SOLUTE: '??'}, ['T'], 'stub', 2),
+            ('WT', 'ls', {'Water': '?0', SOLUTE: '?+'}, ['T', 'T'], 'stub', 1),         # pure or mixed, two calls
+            ('WT', 'ls', {'Water': '+0', SOLUTE: '++'}, ['T', 'Tx', 'Tx'], 'stub', 1),
+            ('WMT', 'ls', {'Water': '+?', 'Methanol': '?+', SOLUTE: '++'}, ['T'], 'stub', 2),
+            ('WMT', 'ls', {'Water': '00', 'Methanol': '00', SOLUTE: '?+'}, ['T'], 'ideal', 0),
+        ]
+    out = []
+    for pkg, phases, pat, calls, gamma, k in fam:
+        nm = f"{pkg}/{phases}/" + ','.join(f'{i[0]}{v}' for i, v in pat.items()) + f"/{'+'.join(calls)}/gamma={gamma}/k={k}"
+        out.append({'name': nm, 'pkg': pkg, 'phases': phases, 'pattern': pat, 'calls': calls, 'gamma': gamma, 'k': k})
+    return out
+
+
+@group('C15/sle', configs=sle_configs,
+       functions=['thermosteam.equilibrium.sle:SLE.__call__', 'thermosteam.equilibrium.sle:SLE._setup',
+                  'thermosteam.equilibrium.sle:SLE._update_solubility', 'thermosteam.equilibrium.sle:SLE._solve_x',
+                  'thermosteam.equilibrium.sle:SLE._x_iter'],
+       assumptions=['A-models: solubility_eutectic, Cn, activity coefficients return arbitrary values',
+                    'A-iter: flx.aitken only evaluates its callback (k times, arbitrary arguments)'])
+def sle(w, cfg):
+    """
+    Calls: 'T' = sle(solute, T=T) (solubility computed), 'Tx' = sle(solute, T=T, solubility=x) (given).
+    Only the named solute moves, no more dissolves than the solubility (computed or given) allows nor than is present;
+    a pure solute is all liquid above its melting point and all solid below.
+    """
+    W.reset_caches()
+    env = Env(w, cfg)
+    IDs = PKGS[cfg['pkg']]
+    try:
+        computed = install_sle_stubs(env, IDs)
+        chems = W.thermo(IDs).chemicals
+        th = tmo.Thermo(chems, Gamma=StubGamma if cfg['gamma'] == 'stub' else eq.IdealActivityCoefficients)
+        phases = cfg['phases']
+        s = tmo.MultiStream(None, phases=tuple(phases), thermo=th)
+        plant(w, s, 'f', dist_of(cfg['pkg'], phases, cfg['pattern']))
+        Tm = float(chems[SOLUTE].Tm)
+        sle_obj = s.sle
+        now = None
+        P0 = s.P
+        for n, call in enumerate(cfg['calls']):
+            tag = f'call {n}: '
+            T = w.real(f'T{n}', lo=250., hi=450.)
+            kw = {'T': T}
+            if call == 'Tx':
+                kw['solubility'] = w.real(f'x{n}')
+            pre = flows_now(s)
+            others_present = any(i != chems.index(SOLUTE) for ph, sv in W.rows_of(s) if ph in 'ls' for i in sv.dct)
+            del computed[:]
+            try:
+                sle_obj(SOLUTE, **kw)
+            except NOT_NORMAL as e:
+                w.note(outcome=type(e).__name__)
+                return
+            now = flows_now(s)
+            total = pre['l', SOLUTE] + pre['s', SOLUTE]
+            for (ph, ID), v in sorted(now.items()):
+                if ID != SOLUTE or ph not in 'ls':
+                    w.ensure(f'{tag}frame: only the solute moves (between l and s), flow[{ph},{ID}] unchanged', w.eq(v, pre[ph, ID]))
+            w.ensure(f'{tag}solute conserved over l+s', w.eq(now['l', SOLUTE] + now['s', SOLUTE], total))
+            w.ensure(f'{tag}no more dissolved than present, nothing negative',
+                     w.And(w.ge(now['l', SOLUTE], 0.), w.le(now['l', SOLUTE], total), w.ge(now['s', SOLUTE], 0.)))
+            w.ensure(f'{tag}T is the requested temperature', w.eq(s.T, T))
+            w.ensure(f'{tag}frame: P unchanged', w.eq(s.P, P0))
+            w.ensure(f'{tag}rep_ok (no stored zero)', rep_ok(w, s))
+            x = kw.get('solubility', computed[-1] if computed else None)
+            if x is not None:
+                other_liquid = w_total([now['l', ID] for ID in IDs if ID != SOLUTE])
+                dissolved = now['l', SOLUTE]
+                w.ensure(f'{tag}no more dissolved than the solubility allows (mole fraction of the solute in the liquid <= x)',
+                         w.Or(w.And(w.lt(x, 0.), w.eq(dissolved, 0.)),
+                              w.And(w.ge(x, 0.), w.lt(x, 1.), w.le(dissolved * (1. - x), x * other_liquid)),
+                              w.ge(x, 1.)))
+            if not others_present:
+                w.ensure(f'{tag}pure solute: all liquid above the melting point, all solid below',
+                         w.And(w.Implies(w.gt(T, Tm), w.And(w.eq(now['l', SOLUTE], total), w.eq(now['s', SOLUTE], 0.))),
+                               w.Implies(w.lt(T, Tm), w.And(w.eq(now['s', SOLUTE], total), w.eq(now['l', SOLUTE], 0.)))))
+            elif x is None:
+                raise AssertionError('mixture, but no solubility was computed or given (contract harness out of date)')
+        w.canary('canary: the solid solute is what it was + 1', w.eq(now['s', SOLUTE], pre['s', SOLUTE] + 1))
+        w.note(calls=dict(env.calls), flows=now)
+    finally:
+        env.restore()
+        StubGamma.env_now = None
+
+
+# --------------------------------------------------------------------------- C15/solver_cache: one solver per stream until reset_cache
+
+def cache_configs(tier):
+    return [{'name': f'{kind}/{which}', 'kind': kind, 'which': which} for kind in ('stream', 'multistream') for which in ('lle', 'sle')]
+
+
+@group('C15/solver_cache', configs=cache_configs,
+       functions=['thermosteam.utils.cache:Cache.retrieve', 'thermosteam.utils.cache:Cache.__call__',
+                  'thermosteam._multi_stream:MultiStream.reset_cache', 'thermosteam._multi_stream:MultiStream.lle',
+                  'thermosteam._multi_stream:MultiStream.sle', 'thermosteam._stream:Stream.lle', 'thermosteam._stream:Stream.sle'])
+def solver_cache(w, cfg):
+    """LLECache / SLECache: a stream keeps one solver (bound to ITS flows and thermal condition) until reset_cache; streams never share one."""
+    W.reset_caches()
+    which = cfg['which']
+    pkg = 'WO' if which == 'lle' else 'WT'
+    phases = ('l', 'L') if which == 'lle' else ('l', 's')
+
+    def make(name):
+        if cfg['kind'] == 'stream':
+            s, _ = W.make_stream(w, name, PKGS[pkg], 'l', present={'default': 'pos'})
+        else:
+            s, _ = W.make_stream(w, name, PKGS[pkg], phases, present={'default': 'zero', ('l', 'Water'): 'pos', ('l', PKGS[pkg][1]): 'pos'})
+        return s
+    a = make('a')
+    b = make('b')
+    before = W.total_by_CAS(a)
+    A1 = getattr(a, which)
+    A2 = getattr(a, which)
+    B1 = getattr(b, which)
+    cls = eq.LLE if which == 'lle' else eq.SLE
+    w.ensure('the solver is of the advertised class', w.And(type(A1) is cls, type(B1) is cls))
+    w.ensure('one solver per stream: asking twice gives the same object', w.And(A1 is A2))
+    w.ensure('two streams never share a solver', w.And(A1 is not B1))
+    w.ensure('the solver works on the flows and thermal condition of its stream',
+             w.And(A1.imol is a.imol, A1.thermal_condition is a._thermal_condition, B1.imol is b.imol,
+                   B1.thermal_condition is b._thermal_condition, A1.thermo is a.thermo))
+    w.ensure('asking for the solver moves no material', w.all_eq(W.total_by_CAS(a).values(), before.values()))
+    if which == 'lle':
+        A1._K = 'remembered'          # a mark in the remembered state
+    else:
+        A1._x = 'remembered'
+    a.reset_cache()
+    A3 = getattr(a, which)
+    w.ensure('reset_cache: a new solver', w.And(A3 is not A1, type(A3) is cls))
+    w.ensure('reset_cache: nothing remembered', w.And((A3._K is None and A3._phi is None and A3._lle_chemicals is None) if which == 'lle' else A3._x is None))
+    w.ensure('reset_cache: still one solver per stream', w.And(getattr(a, which) is A3, A3.imol is a.imol, A3.thermal_condition is a._thermal_condition))
+    w.ensure('reset_cache of one stream leaves the other stream its solver', w.And(getattr(b, which) is B1))
+    # the cache object itself: same arguments -> same value, other arguments -> a fresh value for those arguments
+    cache = a._lle_cache if which == 'lle' else a._sle_cache
+    v1 = cache(*cache.args)
+    w.ensure('Cache.__call__ with the same arguments returns the kept solver', w.And(v1 is A3))
+    v2 = cache(b._imol, b._thermal_condition, b._thermo)
+    w.ensure('Cache.__call__ with other arguments loads a solver for those', w.And(v2 is not A3, v2.imol is b._imol, cache.retrieve() is v2))
+    w.canary('canary: both streams share one solver', w.And(A1 is B1))
+
+
+# =========================================================================== mode B: the REAL solvers (bounded, never counted as proved)
+
+B_FAMILIES = {
+    'WOcE': ('Water', 'Octanol', 'Ethanol'),
+    'WBu': ('Water', 'Butanol'),
+    'WHxE': ('Water', 'Hexane', 'Ethanol'),
+    'WEaE': ('Water', 'EthylAcetate', 'Ethanol'),
+}
+B_FEEDS = {
+    'WOcE': [(100., 100., 20.), (60., 140., 35.), (150., 40., 10.)],
+    'WBu': [(100., 50.), (70., 90.), (40., 15.)],
+    'WHxE': [(100., 100., 30.), (50., 120., 20.), (120., 30., 45.)],
+    'WEaE': [(100., 100., 10.), (80., 60., 15.), (40., 120., 5.)],
+}
+B_METHODS = {'pseudo': 'pseudo equilibrium', 'shgo': 'shgo', 'de': 'differential evolution'}
+# equal-activity tolerance per solver (relative): the fixed-point method iterates to xtol 1e-9 / 1e-12,
+# the two optimisers minimise the Gibbs energy to f_tol / tol 1e-6
+ACT_TOL = {'pseudo': 1e-3, 'shgo': 2e-2, 'de': 2e-2}
+SPLIT_RTOL = 1e-3           # "same split": every flow within 1e-3 of the total feed
+W.preload(list(B_FAMILIES.values()))
+B_ERRORS = (NoEquilibrium, InfeasibleRegion, ZeroDivisionError, FloatingPointError, RuntimeError)
+
+
+def b_stream(fam, flows, scale=1.):
+    s = tmo.MultiStream(None, phases=('l', 'L'), thermo=W.thermo(B_FAMILIES[fam]))
+    b_set_feed(s, flows, scale)
+    return s
+
+
+def b_set_feed(s, flows, scale=1.):
+    s.imol['L'] = 0
+    s.imol['l'] = np.asarray(flows, dtype=float) * scale
+
+
+def b_call(s, T, method, top, use_cache=True):
+    lle = s.lle
+    lle.method = B_METHODS[method]
+    lle(T, top_chemical=top, use_cache=use_cache)
+
+
+def b_flows(s):
+    n = len(s.chemicals.IDs)
+    out = {}
+    for ph, sv in W.rows_of(s):
+        out[ph] = np.array([float(sv.dct.get(i, 0.)) for i in range(n)])
+    return out
+
+
+def b_activities(s, fl):
+    gamma = s.thermo.Gamma(s.chemicals.tuple)
+    acts = {}
+    for ph in ('l', 'L'):
+        x = fl[ph] / fl[ph].sum()
+        acts[ph] = x * gamma(x, s.T)
+    return acts
+
+
+def b_same_split(fa, fb, F, rtol=SPLIT_RTOL):
+    return all(abs(float(fa[ph][i]) - float(fb[ph][i])) <= rtol * F for ph in ('l', 'L') for i in range(len(fa[ph])))
+
+
+def b_round(fl):
+    return {ph: [round(float(v), 5) for v in a] for ph, a in fl.items()}
+
+
+def _b_tops(fam, tier):
+    IDs = B_FAMILIES[fam]
+    return [None, IDs[1]] if tier == 'quick' else [None] + list(IDs)
+
+
+def _b_Ts(tier):
+    return [290., 320., 350.] if tier == 'quick' else [285., 295., 305., 315., 325., 335., 345., 355.]
+
+
+def _seeded_feeds(fam, n):
+    """Extra pseudo-random compositions (deterministic: derived from VERIF_SEED)."""
+    import random
+    rnd = random.Random(f"C15/{fam}/{os.environ.get('VERIF_SEED', '0') or 0}")
+    k = len(B_FAMILIES[fam])
+    return [tuple(round(rnd.uniform(20., 150.), 1) if i < 2 else round(rnd.uniform(2., 40.), 1) for i in range(k)) for _ in range(n)]
+
+
+def _b_feeds(fam, tier):
+    return B_FEEDS[fam][:1] if tier == 'quick' else B_FEEDS[fam] + _seeded_feeds(fam, 2)
+
+
+def real_split_configs(tier):
+    out = []
+    for fam in B_FAMILIES:
+        for fi, feed in enumerate(_b_feeds(fam, tier)):
+            for T in _b_Ts(tier):
+                for m in B_METHODS:
+                    for top in _b_tops(fam, tier):
+                        out.append({'name': f'{fam}/feed{fi}/T={T:g}/method={m}/top={top}', 'fam': fam, 'feed': list(feed), 'T': T,
+                                    'method': m, 'top': top, 'scales': [1e-3, 1e3] if tier == 'quick' else [1e-3, 0.37, 21., 1e3]})
+    return out
+
+
+B_NOTES = ('families Water/Octanol/Ethanol, Water/Butanol, Water/Hexane/Ethanol, Water/EthylAcetate/Ethanol; quick: 1 feed x T in {290,320,350} K; '
+           'thorough: 5 feeds (2 seeded by VERIF_SEED) x T 285..355 K step 10; methods pseudo equilibrium / shgo / differential evolution; '
+           'top chemical None or each chemical; scale factors 1e-3..1e3; equal-activity tolerance 1e-3 (pseudo equilibrium) / 2e-2 (optimisers)')
+
+
+@group('C15/real_split', configs=real_split_configs, mode='B', notes=B_NOTES,
+       functions=['thermosteam.equilibrium.lle:LLE.__call__', 'thermosteam.equilibrium.lle:LLE.solve_lle_liquid_mol',
+                  'thermosteam.equilibrium.lle:pseudo_equilibrium', 'thermosteam.equilibrium.lle:psuedo_equilibrium_inner_loop',
+                  'thermosteam.equilibrium.lle:lle_objective_function'])
+def real_split(w, cfg):
+    """Fresh stream, real solver: equal activities in both liquids, top-chemical rule, conservation, proportionality under scaling."""
+    W.reset_caches()
+    fam, feed, T, m, top = cfg['fam'], cfg['feed'], cfg['T'], cfg['method'], cfg['top']
+    IDs = B_FAMILIES[fam]
+    F = sum(feed)
+    s = b_stream(fam, feed)
+    try:
+        b_call(s, T, m, top)
+    except B_ERRORS as e:
+        w.note(outcome=type(e).__name__)
+        return
+    fl = b_flows(s)
+    for i, ID in enumerate(IDs):
+        w.ensure(f'total[{ID}] over l+L unchanged', abs(fl['l'][i] + fl['L'][i] - feed[i]) <= 1e-9 * F and fl['l'][i] >= 0. and fl['L'][i] >= 0.)
+    two = fl['l'].sum() > 1e-9 * F and fl['L'].sum() > 1e-9 * F
+    w.note(flows=b_round(fl), two_liquids=bool(two))
+    if two:
+        acts = b_activities(s, fl)
+        for i, ID in enumerate(IDs):
+            al, aL = float(acts['l'][i]), float(acts['L'][i])
+            w.ensure(f'two liquids: equal activity x*gamma of {ID} in both', abs(al - aL) <= ACT_TOL[m] * max(abs(al), abs(aL)),
+                     activity_l=al, activity_L=aL, flows=b_round(fl))
+        if top is not None:
+            MW = s.chemicals.MW
+            k = IDs.index(top)
+            wL = fl['L'][k] * MW[k] / (fl['L'] * MW).sum()
+            wl = fl['l'][k] * MW[k] / (fl['l'] * MW).sum()
+            w.ensure(f'top chemical {top}: mass fraction in L >= in l', wL >= wl - 1e-12, w_L=float(wL), w_l=float(wl))
+    for k in cfg['scales']:
+        s2 = b_stream(fam, feed, k)
+        try:
+            b_call(s2, T, m, top)
+        except B_ERRORS as e:
+            w.ensure(f'scaled by {k:g}: returns as the unscaled call does', False, outcome=type(e).__name__)
+            continue
+        f2 = b_flows(s2)
+        w.ensure(f'scaled by {k:g}: flows proportional to the feed',
+                 all(abs(f2[ph][i] - k * fl[ph][i]) <= 1e-6 * k * F for ph in ('l', 'L') for i in range(len(IDs))),
+                 flows=b_round(fl), scaled=b_round({ph: a / k for ph, a in f2.items()}))
+
+
+# --------------------------------------------------------------------------- histories on the same stream
+
+def _histories(tier):
+    """name -> list of earlier calls (dT relative to the target temperature, feed: 'same' or 'other')."""
+    h = {
+        'hotter': [(+40., 'same')],
+        'colder': [(-40., 'same')],
+        'same': [(0., 'same')],
+        'otherz': [(0., 'other')],
+        'hotter-otherz+colder': [(+30., 'other'), (-30., 'same')],
+    }
+    if tier == 'thorough':
+        h.update({
+            'colder+hotter': [(-30., 'same'), (+30., 'same')],
+            'same+same': [(0., 'same'), (0., 'same')],
+            'otherz+same': [(0., 'other'), (0., 'same')],
+            'hotter+colder+same': [(+30., 'same'), (-30., 'same'), (0., 'same')],
+            'otherz+hotter-otherz+colder': [(0., 'other'), (+25., 'other'), (-25., 'same')],
+            'colder+colder2+hotter+otherz': [(-10., 'same'), (-20., 'same'), (+15., 'same'), (0., 'other')],
+        })
+    return h
+
+
+def real_history_configs(tier):
+    out = []
+    Ts = [320.] if tier == 'quick' else [300., 320., 340.]
+    for fam in B_FAMILIES:
+        feeds = B_FEEDS[fam]
+        for T in Ts:
+            for m in B_METHODS:
+                for top in _b_tops(fam, tier):
+                    for hname, hist in _histories(tier).items():
+                        out.append({'name': f'{fam}/T={T:g}/method={m}/top={top}/hist={hname}', 'fam': fam, 'feed': list(feeds[0]),
+                                    'other': list(feeds[1]), 'T': T, 'method': m, 'top': top, 'hist': [list(i) for i in hist]})
+    return out
+
+
+@group('C15/real_history', configs=real_history_configs, mode='B',
+       notes=B_NOTES + '; histories of 1-4 earlier calls at other temperatures (+-10..40 K) / another composition on the same stream, '
+                       'compared with a fresh stream and with reuse of the remembered coefficients allowed / forbidden; same split = every flow within 1e-3 of the total feed',
+       functions=['thermosteam.equilibrium.lle:LLE.__call__', 'thermosteam.equilibrium.lle:LLE.solve_lle_liquid_mol',
+                  'thermosteam.equilibrium.lle:pseudo_equilibrium', 'thermosteam.utils.cache:Cache.retrieve'])
+def real_history(w, cfg):
+    """A call never returns the equilibrium of an earlier temperature or composition: after any history the split is the fresh stream's."""
+    W.reset_caches()
+    fam, feed, other, T, m, top = cfg['fam'], cfg['feed'], cfg['other'], cfg['T'], cfg['method'], cfg['top']
+    F = sum(feed)
+    fresh = b_stream(fam, feed)
+    try:
+        b_call(fresh, T, m, top)
+    except B_ERRORS as e:
+        w.note(outcome=type(e).__name__)
+        return
+    f0 = b_flows(fresh)
+    results = {}
+    for use_cache in (True, False):
+        s = b_stream(fam, feed)
+        try:
+            for dT, which in cfg['hist']:
+                b_set_feed(s, feed if which == 'same' else other)
+                b_call(s, T + dT, m, top)
+            b_set_feed(s, feed)
+            b_call(s, T, m, top, use_cache=use_cache)
+        except B_ERRORS as e:
+            w.note(**{f'outcome_reuse_{use_cache}': type(e).__name__})
+            continue
+        results[use_cache] = b_flows(s)
+    w.note(fresh=b_round(f0), **{f'reuse_{k}': b_round(v) for k, v in results.items()})
+    if True in results:
+        w.ensure('after the history, reuse allowed: same split as a fresh stream', b_same_split(results[True], f0, F),
+                 fresh=b_round(f0), got=b_round(results[True]))
+    if False in results:
+        w.ensure('after the history, reuse forbidden: same split as a fresh stream', b_same_split(results[False], f0, F),
+                 fresh=b_round(f0), got=b_round(results[False]))
+    if True in results and False in results:
+        w.ensure('after the history: reuse allowed gives the same split as reuse forbidden', b_same_split(results[True], results[False], F),
+                 allowed=b_round(results[True]), forbidden=b_round(results[False]))
